@@ -111,7 +111,7 @@ def finish_program(p):
             q = f['parent']
             ok = False
             while q:
-                if nm in (binds(p, q) - set(p['fns'][q - 1]['nonlocals'])):
+                if nm in (binds(p, q) - set(p['fns'][q - 1]['nonlocals']) - set(p['fns'][q - 1]['globals'])):
                     ok = True
                     break
                 q = p['fns'][q - 1]['parent']
@@ -145,6 +145,9 @@ def finish_program(p):
             names.add(x['name'])
     p['names'] = sorted(names)
     p.setdefault('pure', 0)
+    p['gnames'] = sorted({nm for f in p['fns'] for nm in f['globals']})      # module-level variables
+    names |= set(p['gnames'])
+    p['names'] = sorted(names)
     p.setdefault('keys', 0)       # 1: the state object is a dict with constant keys (o['v']) instead of attributes (o.v)
     p['lists'] = 1 if any(d['kind'] in ('newlist', 'append', 'pop', 'getitem', 'setitem') for d in p['nodes']) else 0
     p['anc'] = ancestors(p)
@@ -341,13 +344,14 @@ class RandomGen:
     def __init__(self, rnd, maxdepth=3, loop_else=False, maxfns=3, ifexp=True, exprstmt=True, dele=True,
                  try_=True, with_=True, calls=True, names=None, hnames=True, directives=True, contexts=None, lam_rate=0.08,
                  def_rate=0.0, call_rate=0.0, closure_bias=False, init=0.7, obj_rate=0.3,
-                 globfns=0, list_rate=0.2, list_stmt_rate=0.15):
+                 globfns=0, list_rate=0.2, list_stmt_rate=0.15, glob_rate=0.2):
         self.contexts = CONTEXTS if contexts is None else contexts
         self.globfns = globfns          # number of module-level functions the function under test (and they) can call
         self.init = init                # probability that the program starts by assigning its variables
         self.objects = self.contexts and rnd.random() < obj_rate     # this program keeps attribute state on an object `o`
         self.lists = self.contexts and rnd.random() < list_rate     # ... and a list `l` (a local of the function under test)
         self.list_stmt_rate = list_stmt_rate
+        self.globs = self.contexts and rnd.random() < glob_rate     # ... and a module-level variable gv, read and rebound
         self.lam_rate = lam_rate        # share of statements that store / call a lambda value
         self.def_rate = def_rate        # extra share of statements that define / call a nested function (closure profile)
         self.call_rate = call_rate
@@ -365,7 +369,7 @@ class RandomGen:
         self.try_ = try_
         self.with_ = with_
         self.calls = calls
-        self.names = names or NAMES
+        self.names = list(names or NAMES) + (['gv'] if self.globs else [])
         self.cx = Contexts(rnd, self.names)
 
     def reads(self, scope, lo=0, hi=2):
@@ -514,6 +518,10 @@ class RandomGen:
                 return c
         return b.node(kind='pass', fn=fn)
 
+    def declare_global(self, fid):
+        if self.globs and self.r.random() < 0.6:
+            self.b.fns[fid - 1]['globals'] = ['gv']
+
     def def_stmt(self, fn, scope, depth):
         b = self.b
         np_ = self.r.choice([0, 1, 1, 2])
@@ -524,6 +532,8 @@ class RandomGen:
         fid = b.fn(name, params, fn)
         b.fns[fid - 1]['nonlocals'] = self.r.sample(self.names, self.r.choice([0, 1, 1, 2]) if self.closure_bias else self.r.randint(0, 1))
         inner = (self.names * 3 + params) if self.closure_bias else scope + params
+        self.declare_global(fid)
+        b.fns[fid - 1]['nonlocals'] = [x for x in b.fns[fid - 1]['nonlocals'] if x not in b.fns[fid - 1]['globals']]
         b.fns[fid - 1]['body'] = self.block(fid, inner, depth + 1, False, False)
         nd = b.node(kind='def', fn=fn, name=b.fns[fid - 1]['name'], f=fid)
         if self.contexts:
@@ -548,9 +558,11 @@ class RandomGen:
     def program(self, lo=2, hi=4):
         b = self.b
         b.fn('f', ['a', 'b'], 0)
+        self.declare_global(1)
         for _ in range(self.globfns):      # module-level functions: own variables only, converted when they are called
             params = ['p', 'q'][:self.r.choice([1, 1, 2])]
             fid = b.fn('G%d' % (len(b.fns) + 1), params, 0)
+            self.declare_global(fid)
             objs, self.objects = self.objects, False     # the object `o` belongs to the function under test
             gbody = self.block(fid, self.names + params * 2, 1, False, lo=1, hi=3)
             self.objects = objs
@@ -711,6 +723,8 @@ def r_stmt(p, n, ind, out):
         emit('def %s(%s):' % (f['name'], ', '.join(params)))
         if f['nonlocals']:
             out.append((0, s + '    nonlocal ' + ', '.join(f['nonlocals'])))
+        if f['globals']:
+            out.append((0, s + '    global ' + ', '.join(f['globals'])))
         r_block(p, f['body'], ind + 1, out)
     elif k == 'call':
         args = list(d['args'])
@@ -739,10 +753,14 @@ def render(p, name=None):
     for g in p['fns'][1:]:
         if g['parent'] == 0:          # module-level functions, defined before the function under test
             out.append((0, 'def %s(%s):' % (g['name'], ', '.join(g['params']))))
+            if g['globals']:
+                out.append((0, '    global ' + ', '.join(g['globals'])))
             r_block(p, g['body'], 1, out)
             out.append((0, ''))
     f = p['fns'][0]
     out.append((0, 'def %s(%s):' % (name or f['name'], ', '.join(f['params']))))
+    if f['globals']:
+        out.append((0, '    global ' + ', '.join(f['globals'])))
     r_block(p, f['body'], 1, out)
     src = '\n'.join(t for _, t in out) + '\n'
     linemap = {i + 1: n for i, (n, _) in enumerate(out) if n}
@@ -938,12 +956,25 @@ def outcome(fn, args):
         return ['exc', 'OTHER:%s:%s' % (type(e).__name__, str(e)[:120])]
 
 
+def global_tokens(p):
+    """Initial values of the module-level variables: tokens of their own."""
+    return {nm: Tok(('t', 0, 11 + i)) for i, nm in enumerate(p.get('gnames', []))}
+
+
+def globals_now(p, ns):
+    """What the module-level variables hold (['u', 0, 0] = unbound), in the order of p['gnames']."""
+    get = ns.get if isinstance(ns, dict) else (lambda k, d=None: getattr(ns, k, d))
+    missing = object()
+    return [(['u', 0, 0] if get(nm, missing) is missing else enc(get(nm))) for nm in p.get('gnames', [])]
+
+
 def run_py(src, p, decisions, fname=None, inp=None):
     run = Run(decisions)
     ns = run.ns()
+    ns.update(global_tokens(p))
     exec(compile(src, '<minipy>', 'exec'), ns)
     out = outcome(ns[fname or p['fns'][0]['name']], main_args(p, inp))
-    return dict(log=run.log, out=out, used=run.di)
+    return dict(log=run.log, out=out, used=run.di, gl=globals_now(p, ns))
 
 
 def spec_outcome(rec):
@@ -958,7 +989,8 @@ def spec_outcome(rec):
 
 def same_observation(rec, res):
     """Compare a specification execution with an observed run (full log; used for model validation)."""
-    return res['log'] == rec['log'] and res['out'] == spec_outcome(rec) and res['used'] == len(rec['dec'])
+    return (res['log'] == rec['log'] and res['out'] == spec_outcome(rec) and res['used'] == len(rec['dec'])
+            and res.get('gl', []) == rec.get('gl', []))
 
 
 if __name__ == '__main__':
